@@ -266,7 +266,14 @@ CLASSES: dict[str, ClassInfo] = {}
 
 
 def declare_class(name, bases=(), fields=None, truthy=None):
-    CLASSES[name] = ClassInfo(name, bases, fields, truthy)
+    """(Re)declaring a class merges field declarations: several models live in one process."""
+    old = CLASSES.get(name)
+    if old is not None:
+        merged = dict(old.fields)
+        merged.update(fields or {})
+        CLASSES[name] = ClassInfo(name, bases or old.bases, merged, truthy or old.truthy)
+    else:
+        CLASSES[name] = ClassInfo(name, bases, fields, truthy)
     return CLASSES[name]
 
 
